@@ -586,9 +586,11 @@ pub proof fn lemma_normalize_idempotent(p: Seq<u8>, fa: bool, at0: bool)
 } // verus!
 verus! {
 // ---- C16: suffix ----
-/// equality of two segments as percent-encoded strings (pct_str's PartialEq: compares the decoded characters).
-/// Uninterpreted: the dependency is not verified; the contract of suffix is stated relative to it.
-pub uninterp spec fn pct_eq(a: Seq<u8>, b: Seq<u8>) -> bool;
+/// the character sequence pct_str's decoder (`PctStr::chars`) yields for a text: percent-decoding, then reading the
+/// octets as characters. Uninterpreted: the dependency is not verified; everything about comparison is stated relative to it.
+pub uninterp spec fn pct_chars(a: Seq<u8>) -> Seq<char>;
+/// equality of two texts as percent-encoded strings (pct_str's PartialEq compares the decoded characters pairwise)
+pub open spec fn pct_eq(a: Seq<u8>, b: Seq<u8>) -> bool { pct_chars(a) == pct_chars(b) }
 pub assume_specification [<pct_str::PctStr as PartialEq>::eq] (a: &pct_str::PctStr, b: &pct_str::PctStr) -> (r: bool)
     ensures r == pct_eq(pct_text(a), pct_text(b));
 /// `pre` is a leading part of `full`, segment by segment
